@@ -12,7 +12,6 @@ package main
 import (
 	"context"
 	"fmt"
-	"runtime"
 	"sort"
 	"strconv"
 	"strings"
@@ -25,17 +24,6 @@ import (
 )
 
 func init() { props["C11"] = runC11 }
-
-func goid() uint64 {
-	var buf [64]byte
-	n := runtime.Stack(buf[:], false)
-	// "goroutine 123 ["
-	s := string(buf[:n])
-	s = strings.TrimPrefix(s, "goroutine ")
-	i := strings.IndexByte(s, ' ')
-	v, _ := strconv.ParseUint(s[:i], 10, 64)
-	return v
-}
 
 // ---------- handler programs ----------
 
